@@ -24,6 +24,13 @@ Arguments len {A} l.
 Definition take {A} (n : N) (l : list A) : list A := firstn (N.to_nat n) l.
 Definition drop {A} (n : N) (l : list A) : list A := skipn (N.to_nat n) l.
 
+(* [shorter bs n] = (len bs <? n), computed in min(n, |bs|) steps and without ever turning n into a nat *)
+Fixpoint shorter (bs : bytes) (n : N) : bool :=
+  match bs with
+  | [] => 0 <? n
+  | _ :: r => if n =? 0 then false else shorter r (N.pred n)
+  end.
+
 Definition is_byte (b : N) : Prop := b < 256.
 Definition all_bytes (bs : bytes) : Prop := Forall is_byte bs.
 Definition all_bytesb (bs : bytes) : bool := forallb (fun b => b <? 256) bs.
